@@ -112,6 +112,8 @@ def run(ctx):
     rng = random.Random(ctx["seed"] * 104729 + 4)
     tier = ctx["tier"]
     res = Result("C04")
+    import pycode  # translator validation: generated Lean definitions vs the real functions (harness/pycode.py)
+    pycode.check(res, random.Random(ctx["seed"] * 7919 + 77), ctx["tier"], ["reader"])
     res.rule = ("sequences of 1..12 well-formed frames (own, broadcast, foreign recipient, unknown sender, unknown kind, "
                 "checksum byte = 0x68, payloads salted with delimiter and header-shaped bytes, boundary sizes) x 5-6 chunkings "
                 "(all up front, 1-byte lazy, random lazy, frame boundaries lazy, cuts inside bodies lazy); lazy = next chunk fed "
